@@ -364,6 +364,202 @@ def bencode_roundtrip(ctx, n):
         ctx.note(("bencode", sorted((k, v.hex()) for k, v in d.items())), nontrivial=len(d) >= 1)
 
 
+def judge(ctx, pfx, kind, via, S, D, M, ow, ignore_master, sub, ret, exc, source, target, master, sample_p, extra=None):
+    """Judge ONE executed transfer against the four-case table on fresh read-backs.
+
+    S, D, M are what fresh objects read from source, target and master just before the transfer.  Returns True
+    when the target's dictionary is the table's.
+    """
+    rng = ctx.rng
+    flags = {"kind": kind, "via": via, "overwrite": ow, "ignore_master": ignore_master if master is not None else None,
+             "selected": None if sub is None else sorted(sub)}
+    det = dict(flags, S=jd(S), D=jd(D), M=jd(M))
+    if extra:
+        det["session"] = extra
+    cl = classes(S, D, sub)
+    for c in cl:
+        ctx.hist("class:" + c)
+    ctx.hist("via:" + pfx + via)
+    sig = (pfx, kind, via, jd(S), jd(D), jd(M), ow, flags["ignore_master"], flags["selected"], extra)
+    if exc is not None:
+        ctx.fail("%s%s:%s:raised:%s" % (pfx, via, kind, type(exc).__name__), repr(exc)[:400], det)
+        ctx.note(sig, nontrivial=False)
+        return False
+
+    exp_res, exp_upd, exp_conf = table(S, D, ow, sub)
+    touched_master = master is not None and not ignore_master
+    if touched_master:
+        mres, mupd, mconf = table(S, M, ow, sub)
+        exp_upd = dict(exp_upd, **mupd)
+        exp_conf = exp_conf | mconf
+    # -- result dictionaries through fresh objects
+    good = True
+    got = target.read()
+    ctx.count("oracle_merge_to_result")
+    if target.kind == "git":
+        ctx.count("oracle_git_target")
+    if source.kind == "git":
+        ctx.count("oracle_git_source")
+    if got != exp_res:
+        good = False
+        ctx.fail("%s%s:%s:result:%s" % (pfx, via, kind, classify(S, D, ow, sub, got)),
+                 "target reads %r, table says %r" % (jd(got), jd(exp_res)), dict(det, got=jd(got), expected=jd(exp_res)))
+    if master is not None:
+        mgot = master.read()
+        ctx.count("oracle_master_result")
+        want = mres if touched_master else M
+        if mgot != want:
+            ctx.fail("%s%s:%s:master-result:%s" % (pfx, via, kind, classify(S, M, ow, sub, mgot) if touched_master else "ignore_master-not-honoured"),
+                     "master reads %r, expected %r" % (jd(mgot), jd(want)), dict(det, got=jd(mgot), expected=jd(want)))
+        ctx.hist("master:" + ("updated" if touched_master else "ignored"))
+    sgot = source.read()
+    if sgot != S:
+        ctx.fail("%s%s:%s:source-changed" % (pfx, via, kind), "source reads %r after merge, was %r" % (jd(sgot), jd(S)), det)
+    # -- the report
+    ctx.count("oracle_merge_to_report")
+    try:
+        upd, conf = ret
+        upd = dict(upd)
+        conf_l = list(conf)
+        conf_s = set(conf_l)
+    except Exception as e:
+        ctx.fail("%s%s:%s:report-shape" % (pfx, via, kind), "returned %r (%r)" % (ret, e), det)
+        return good
+    if upd != exp_upd:
+        ctx.fail("%s%s:%s:updates" % (pfx, via, kind), "updates %r, table says %r" % (jd(upd), jd(exp_upd)),
+                 dict(det, got=jd(upd), expected=jd(exp_upd)))
+    if conf_s != exp_conf:
+        swapped = {(n, b, a) for n, a, b in conf_s} == exp_conf and bool(conf_s)
+        ctx.fail("%s%s:%s:conflicts%s" % (pfx, via, kind, ":swapped-values" if swapped else
+                                          (":missing" if exp_conf - conf_s else ":spurious")),
+                 "conflicts %r, table says %r" % (jc(conf_s), jc(exp_conf)),
+                 dict(det, got=jc(conf_s), expected=jc(exp_conf)))
+    ctx.distinct("table-class-sets", sorted(cl))
+    ctx.distinct("pairing-flags", [pfx, kind, via, ow, flags["ignore_master"], sub is not None])
+    ctx.note(sig, nontrivial=bool(S) and len(cl) >= 2,
+             sample=dict(det, result=jd(got), updates=jd(upd), conflicts=jc(conf_s)) if rng.random() < sample_p else None)
+    return good
+
+
+# ------------------------------------------------------------------ long-lived objects
+
+def session(ctx, kind, src_kind, tgt_kind, source, target, master, revs):
+    """Several transfers into ONE long-lived, caller-unlocked target Branch object, interleaved with writes
+    made through other openers of the same branch (and of the source / master).
+
+    The statement quantifies over the destination's tags at the time of the transfer: what a fresh opener reads
+    just before the call is D, and the table must hold on what a fresh opener reads afterwards - whatever this
+    target object did or cached earlier.  A long-lived object that is not locked must also read what a fresh one
+    reads ("stored and read back unchanged").
+    """
+    rng = ctx.rng
+    gitish = revs is not None
+    if gitish:
+        names = rng.sample(GIT_NAMES, 5)
+        names = [n for n in names if not any(o != n and o.startswith(n + "/") for o in names)]
+        svalues = tvalues = list(revs)
+        if tgt_kind in ("bzr", "bound"):
+            tvalues = list(revs) + rng.sample(BZR_VALUES, 2)
+    else:
+        names = rng.sample(BZR_NAMES, 5)
+        svalues = tvalues = rng.sample(BZR_VALUES, 4)
+    mvalues = svalues if tgt_kind == "git" else tvalues  # an in-memory source may hold anything the target can
+    S, D = gen_related(rng, names, svalues)[0], gen_related(rng, names, tvalues)[1]
+    ok = source.install(ctx, S) and target.install(ctx, D)
+    if master is not None:
+        ok = master.install(ctx, gen_related(rng, names, tvalues)[1]) and ok
+    if not ok:
+        return
+    memsrc = Store("mem", d=gen_dict(rng, names, mvalues, 0.4))
+    A = target.branch()             # the long-lived destination object; never locked by us
+    src_obj = None if source.kind == "mem" else source.branch()   # long-lived source object
+    ctx.hist("session:" + kind)
+    # what happened to A since its last tag read: None | "xfer" (received a transfer) | "xfer+other" (... and then
+    # somebody else wrote the branch)
+    trail = None
+    steps = 8 if ctx.tier == "quick" else 12
+    for _ in range(steps):
+        r = rng.random()
+        if r < 0.5:
+            # ---- a transfer into A
+            use_mem = source.kind != "mem" and rng.random() < 0.4
+            src = memsrc if use_mem else source
+            if rng.random() < 0.7:   # give the source something new to say
+                if not src.install(ctx, gen_related(rng, names, mvalues if src is memsrc else svalues)[0]):
+                    return
+            S, D = src.read(), target.read()
+            jmaster = master if src.kind != "mem" else None   # MemoryTags.merge_to has no notion of a master
+            M = jmaster.read() if jmaster is not None else None
+            ow = rng.random() < 0.5
+            ignore_master = rng.random() < 0.4
+            selector, sub = gen_selector(rng, names)
+            via = "merge_to"
+            if kind == "pullpush" and src.kind != "mem":
+                via = rng.choice(["pull", "push"])
+            if src.kind == "mem":
+                sb = src.tags()
+            elif rng.random() < 0.6:
+                sb = src_obj.tags
+            else:
+                sb = src.tags()
+            exc = ret = None
+            try:
+                if via == "merge_to":
+                    ret = sb.merge_to(A.tags, overwrite=ow, ignore_master=ignore_master, selector=selector)
+                else:
+                    ov = rng.choice([True, {"tags"}, {"tags", "history"}]) if ow else rng.choice([False, set(), {"history"}])
+                    if via == "pull":
+                        res = A.pull(sb.branch, overwrite=ov, tag_selector=selector)
+                    else:
+                        res = sb.branch.push(A, overwrite=ov, tag_selector=selector)
+                    ret = (getattr(res, "tag_updates", None) or {}, getattr(res, "tag_conflicts", None) or [])
+            except Exception as e:
+                exc = e
+            pairing = "%s>%s" % (src.kind, tgt_kind)
+            ctx.count("oracle_session_transfer")
+            if trail == "xfer+other":
+                ctx.count("oracle_session_transfer_after_foreign_write")
+            ctx.hist("session-transfer:after-" + str(trail))
+            if not judge(ctx, "session:", pairing, via, S, D, M, ow, ignore_master, sub, ret, exc, src, target, jmaster,
+                         0.01, extra={"A-since-last-read": trail}):
+                return   # later steps would only echo it
+            trail = "xfer"
+        elif r < 0.85:
+            # ---- somebody else (a fresh opener) writes the target, the master or replaces the whole dictionary
+            st = master if (master is not None and rng.random() < 0.25) else target
+            cur = st.read()
+            op = rng.choice(["set", "set", "del", "install"])
+            try:
+                if op == "set":
+                    st.branch().tags.set_tag(rng.choice(names), rng.choice(tvalues if st.kind != "git" else list(revs)))
+                elif op == "del" and cur:
+                    st.branch().tags.delete_tag(rng.choice(sorted(cur)))
+                elif op == "install":
+                    if not st.install(ctx, gen_related(rng, names, tvalues if st.kind != "git" else list(revs))[1]):
+                        return
+                else:
+                    op = "none"
+            except Exception as e:
+                ctx.hist("session-other-writer-refused:%s:%s" % (st.kind, type(e).__name__))
+                op = "none"
+            ctx.hist("session-other-writer:" + op)
+            if op != "none" and st is target and trail is not None:
+                trail = "xfer+other"
+        else:
+            # ---- the long-lived, unlocked object reads: it must see what a fresh opener sees
+            want = target.read()
+            got = dict(A.tags.get_tag_dict())
+            ctx.count("oracle_session_long_lived_read")
+            ctx.hist("session-read:after-" + str(trail))
+            if got != want:
+                ctx.fail("session:long-lived-read:%s:stale" % target.kind,
+                         "unlocked long-lived Branch object reads %r, a fresh opener reads %r" % (jd(got), jd(want)),
+                         {"kind": kind, "A-since-last-read": trail, "got": jd(got), "fresh": jd(want)})
+                return
+            ctx.note(("session-read", kind, trail, jd(want)), nontrivial=trail == "xfer+other")
+            trail = None
+
+
 def case(ctx):
     _cur["ctx"] = ctx
     try:
@@ -453,7 +649,7 @@ def _case(ctx):
             via = rng.choice(["pull", "push"])
         sb = source.tags()
         tt = target.tags()
-        exc = None
+        exc = ret = None
         try:
             if via == "merge_to":
                 ret = sb.merge_to(tt, overwrite=ow, ignore_master=ignore_master, selector=selector)
@@ -466,66 +662,6 @@ def _case(ctx):
                 ret = (getattr(r, "tag_updates", None) or {}, getattr(r, "tag_conflicts", None) or [])
         except Exception as e:
             exc = e
-        flags = {"kind": kind, "via": via, "overwrite": ow, "ignore_master": ignore_master if master is not None else None,
-                 "selected": None if sub is None else sorted(sub)}
-        det = dict(flags, S=jd(S), D=jd(D), M=jd(M))
-        cl = classes(S, D, sub)
-        for c in cl:
-            ctx.hist("class:" + c)
-        ctx.hist("via:" + via)
-        if exc is not None:
-            ctx.fail("%s:%s:raised:%s" % (via, kind, type(exc).__name__), repr(exc)[:400], det)
-            ctx.note((kind, via, jd(S), jd(D), jd(M), ow, flags["selected"]), nontrivial=False)
-            continue
-
-        exp_res, exp_upd, exp_conf = table(S, D, ow, sub)
-        touched_master = master is not None and not ignore_master
-        if touched_master:
-            mres, mupd, mconf = table(S, M, ow, sub)
-            exp_upd = dict(exp_upd, **mupd)
-            exp_conf = exp_conf | mconf
-        # -- result dictionaries through fresh objects
-        got = target.read()
-        ctx.count("oracle_merge_to_result")
-        if tgt_kind == "git":
-            ctx.count("oracle_git_target")
-        if src_kind == "git":
-            ctx.count("oracle_git_source")
-        if got != exp_res:
-            ctx.fail("%s:%s:result:%s" % (via, kind, classify(S, D, ow, sub, got)),
-                     "target reads %r, table says %r" % (jd(got), jd(exp_res)), dict(det, got=jd(got), expected=jd(exp_res)))
-        if master is not None:
-            mgot = master.read()
-            ctx.count("oracle_master_result")
-            want = mres if touched_master else M
-            if mgot != want:
-                ctx.fail("%s:%s:master-result:%s" % (via, kind, classify(S, M, ow, sub, mgot) if touched_master else "ignore_master-not-honoured"),
-                         "master reads %r, expected %r" % (jd(mgot), jd(want)), dict(det, got=jd(mgot), expected=jd(want)))
-            ctx.hist("master:" + ("updated" if touched_master else "ignored"))
-        sgot = source.read()
-        if sgot != S:
-            ctx.fail("%s:%s:source-changed" % (via, kind), "source reads %r after merge, was %r" % (jd(sgot), jd(S)), det)
-        # -- the report
-        ctx.count("oracle_merge_to_report")
-        try:
-            upd, conf = ret
-            upd = dict(upd)
-            conf_l = list(conf)
-            conf_s = set(conf_l)
-        except Exception as e:
-            ctx.fail("%s:%s:report-shape" % (via, kind), "returned %r (%r)" % (ret, e), det)
-            continue
-        if upd != exp_upd:
-            ctx.fail("%s:%s:updates" % (via, kind), "updates %r, table says %r" % (jd(upd), jd(exp_upd)),
-                     dict(det, got=jd(upd), expected=jd(exp_upd)))
-        if conf_s != exp_conf:
-            swapped = {(n, b, a) for n, a, b in conf_s} == exp_conf and bool(conf_s)
-            ctx.fail("%s:%s:conflicts%s" % (via, kind, ":swapped-values" if swapped else
-                                            (":missing" if exp_conf - conf_s else ":spurious")),
-                     "conflicts %r, table says %r" % (jc(conf_s), jc(exp_conf)),
-                     dict(det, got=jc(conf_s), expected=jc(exp_conf)))
-        ctx.distinct("table-class-sets", sorted(cl))
-        ctx.distinct("pairing-flags", [kind, via, ow, flags["ignore_master"], sub is not None])
-        ctx.note((kind, via, jd(S), jd(D), jd(M), ow, flags["ignore_master"], flags["selected"]),
-                 nontrivial=bool(S) and len(cl) >= 2,
-                 sample=dict(det, result=jd(got), updates=jd(upd), conflicts=jc(conf_s)) if rng.random() < 0.02 else None)
+        judge(ctx, "", kind, via, S, D, M, ow, ignore_master, sub, ret, exc, source, target, master, 0.02)
+    if tgt_kind != "mem":
+        session(ctx, kind, src_kind, tgt_kind, source, target, master, revs)
